@@ -329,15 +329,17 @@ package components
 //@   loop 0 invariant stable: p == old(p) && p.inParamPorts == old(p.inParamPorts) && p.outParamPorts == old(p.outParamPorts) && combInOK(p) && inParams != nil
 //@   loop 0 invariant chan-same: forall k string :: k in p.inParamPorts ==> p.inParamPorts[k] == old(p.inParamPorts[k]) && p.inParamPorts[k].Chan == old(p.inParamPorts[k].Chan)
 //@   loop 0 invariant vis: forall k string :: $visited[k] ==> k in p.inParamPorts
-//@   loop 0 invariant drained: forall k string :: $visited[k] ==> k in inParams && chanRecvN(p.inParamPorts[k].Chan) == chanTotal(p.inParamPorts[k].Chan)
+//@   loop 0 invariant collected: forall k string :: $visited[k] ==> k in inParams
+//@   loop 0 invariant drained: forall k string :: $visited[k] ==> chanRecvN(p.inParamPorts[k].Chan) == chanTotal(p.inParamPorts[k].Chan)
 //@   loop 0 invariant only-ports: forall k string :: k in inParams ==> $visited[k]
 //@   loop 1 invariant stable: p == old(p) && p.inParamPorts == old(p.inParamPorts) && p.outParamPorts == old(p.outParamPorts) && combInOK(p) && inParams != nil && pName in p.inParamPorts && inPort == p.inParamPorts[pName] && pName in inParams
 //@   loop 1 invariant chan-same: forall k string :: k in p.inParamPorts ==> p.inParamPorts[k] == old(p.inParamPorts[k]) && p.inParamPorts[k].Chan == old(p.inParamPorts[k].Chan)
 //@   loop 1 invariant vis: forall k string :: $visited0[k] ==> k in p.inParamPorts
-//@   loop 1 invariant drained: forall k string :: $visited0[k] && k != pName ==> k in inParams && chanRecvN(p.inParamPorts[k].Chan) == chanTotal(p.inParamPorts[k].Chan)
+//@   loop 1 invariant collected: forall k string :: $visited0[k] ==> k in inParams
+//@   loop 1 invariant drained: forall k string :: $visited0[k] && k != pName ==> chanRecvN(p.inParamPorts[k].Chan) == chanTotal(p.inParamPorts[k].Chan)
 //@   loop 1 invariant only-ports: forall k string :: k in inParams ==> $visited0[k]
 //@   loop 1 step collects-the-received-value-at-the-end-of-its-ports-list[C19]: len(inParams[pName]) >= 1 && inParams[pName][len(inParams[pName]) - 1] == newParam
 //@   loop 2 invariant keys-so-far: forall k string :: $visited[k] ==> exists j int :: 0 <= j && j < len(keys) && keys[j] == k
-//@   loop 3 invariant outs: p == old(p) && p.outParamPorts == old(p.outParamPorts) && p.outParamPorts != nil && outIPs != nil && (forall k string :: k in outIPs ==> k in p.outParamPorts && p.outParamPorts[k] != nil && wfOutParamPort(p.outParamPorts[k]))
+//@   loop 3 invariant outs: p == old(p) && p.outParamPorts == old(p.outParamPorts) && p.outParamPorts != nil && (forall k string :: k in outIPs ==> k in p.outParamPorts && p.outParamPorts[k] != nil && wfOutParamPort(p.outParamPorts[k]))
 //@   loop 2 invariant outs-ok: p.outParamPorts == old(p.outParamPorts) && p.outParamPorts != nil && (forall k string :: k in p.outParamPorts ==> p.outParamPorts[k] != nil && wfOutParamPort(p.outParamPorts[k])) && (forall k string :: k in p.inParamPorts ==> k in p.outParamPorts) && (forall k string :: k in inParams ==> k in p.inParamPorts)
 //@   loop 2 invariant drained: p == old(p) && p.inParamPorts == old(p.inParamPorts) && inParams != nil && (forall k string :: k in p.inParamPorts ==> k in inParams && chanRecvN(p.inParamPorts[k].Chan) == chanTotal(p.inParamPorts[k].Chan))
